@@ -1,6 +1,7 @@
 package gen
 
 import (
+	"fmt"
 	"strconv"
 	"strings"
 
@@ -119,6 +120,16 @@ func annSelections(b *strings.Builder, ss ast.SelectionSet) {
 
 // RenderArgMaps resolves the arguments of every field and directive of a
 // validated document (ast.Field.ArgumentMap / ast.Directive.ArgumentMap).
+// argSkip, when set, makes RenderArgMaps leave out about a third of the fields.
+var argSkip *Rng
+
+// RenderArgMapsSome is RenderArgMaps on a seeded subset of the fields.
+func RenderArgMapsSome(b *strings.Builder, doc *ast.QueryDocument, vars map[string]interface{}, r *Rng) {
+	argSkip = r
+	defer func() { argSkip = nil }()
+	RenderArgMaps(b, doc, vars)
+}
+
 func RenderArgMaps(b *strings.Builder, doc *ast.QueryDocument, vars map[string]interface{}) {
 	for _, op := range doc.Operations {
 		argDirectives(b, "op:"+op.Name, op.Directives, vars)
@@ -136,7 +147,10 @@ func argDirectives(b *strings.Builder, path string, ds ast.DirectiveList, vars m
 			continue
 		}
 		b.WriteString("args " + path + "@" + d.Name + " = ")
-		am := d.ArgumentMap(vars)
+		am, pan := safeArgMap(func() map[string]interface{} { return d.ArgumentMap(vars) })
+		if pan != "" {
+			b.WriteString("panic: " + pan)
+		}
 		RenderValue(b, am)
 		ScribbleExcept(am, vars)
 		b.WriteByte('\n')
@@ -151,10 +165,19 @@ func argSelections(b *strings.Builder, path string, ss ast.SelectionSet, vars ma
 			p := path + "." + x.Alias
 			if x.Definition != nil {
 				if len(x.Definition.Arguments) > 0 {
-					b.WriteString("args " + p + " = ")
-					RenderValue(b, x.ArgumentMap(vars))
-					b.WriteByte('\n')
-					bump(&probes.argmaps)
+					if argSkip != nil && argSkip.Chance(1, 3) {
+						// an executor resolves one of several merged fields only
+					} else {
+						b.WriteString("args " + p + " = ")
+						am, pan := safeArgMap(func() map[string]interface{} { return x.ArgumentMap(vars) })
+						if pan != "" {
+							b.WriteString("panic: " + pan) // argument resolution of this field failed; the others go on
+						}
+						RenderValue(b, am)
+						ScribbleExcept(am, vars)
+						b.WriteByte('\n')
+						bump(&probes.argmaps)
+					}
 				}
 			}
 			argDirectives(b, p, x.Directives, vars)
@@ -166,4 +189,20 @@ func argSelections(b *strings.Builder, path string, ss ast.SelectionSet, vars ma
 			argDirectives(b, path+"..."+x.Name, x.Directives, vars)
 		}
 	}
+}
+
+
+// safeArgMap resolves one argument map; a panic of the library (it panics on
+// values it cannot convert) is that field's result, not the end of the walk.
+// An injected abort of the simulator is passed on.
+func safeArgMap(f func() map[string]interface{}) (m map[string]interface{}, pan string) {
+	defer func() {
+		if r := recover(); r != nil {
+			if isSimAbort(r) {
+				panic(r)
+			}
+			pan = fmt.Sprint(r)
+		}
+	}()
+	return f(), ""
 }
